@@ -14,7 +14,7 @@ RULE = ("audited set = {optimize_until(L,S)} for every program value L and stage
 ASSUMPTIONS = ["dtype kind classes: int, float, bool, datetime, timedelta, string/object, categorical"]
 CONFIG = {
     "quick": {"budget_s": 55, "programs": 500, "case_timeout_s": 90},
-    "thorough": {"budget_s": 600, "programs": 6000, "case_timeout_s": 180},
+    "thorough": {"budget_s": 600, "programs": 2500, "case_timeout_s": 180},
 }
 TIER = {"t": "quick"}
 
